@@ -621,7 +621,12 @@ func (x *Exec) tx(line, n, ty string, a Args) {
 			x.emit("I W %s %s", n, k)
 		}
 	} else {
-		x.emit("I WF %s %d", n, len(w.writes))
+		// did the handler write to its branch before failing (kept from the chain only by the SDK's discard rule)?
+		if len(w.writes) == 0 {
+			x.emit("I WF %s clean", n)
+		} else {
+			x.emit("I WF %s dirty", n)
+		}
 	}
 	x.emit("I H %s %x", n, w.lastHash)
 	w.dumpState(n)
